@@ -7,7 +7,7 @@ FUNCS = ["buffers.FileBasedBuffer.__len__", "buffers.FileBasedBuffer.append", "b
          "buffers.FileBasedBuffer.getfile", "buffers.FileBasedBuffer.close", "buffers.FileBasedBuffer.__init__",
          "buffers.OverflowableBuffer.__len__", "buffers.OverflowableBuffer.append", "buffers.OverflowableBuffer.get", "buffers.OverflowableBuffer.skip",
          "buffers.OverflowableBuffer.getfile", "buffers.OverflowableBuffer.close",
-         "buffers.ReadOnlyFileBasedBuffer.prepare", "buffers.ReadOnlyFileBasedBuffer.get"]
+         "buffers.ReadOnlyFileBasedBuffer.prepare", "buffers.ReadOnlyFileBasedBuffer.get", "buffers.ReadOnlyFileBasedBuffer.skip"]
 
 
 def main(argv=None):
